@@ -604,6 +604,9 @@ func (x *Exec) verifyBody() {
 	var bind []Val
 	for _, fv := range fn.FreeVars {
 		v := x.symValue(st, "p!"+fv.Name(), fv.Type(), true)
+		if _, isPtr := fv.Type().Underlying().(*types.Pointer); isPtr && v.K == VScalar {
+			st.assume(Neq(v.T, IntT(0))) // a variable captured by reference: its address is never nil
+		}
 		bind = append(bind, v)
 		// a captured variable is a pointer to its cell; expose the cell value under the name
 		x.Params["&"+fv.Name()] = v
